@@ -95,6 +95,8 @@ pub fn step_from_json(j: &J) -> Option<Step> {
         Fault::FailBefore
     } else if f.starts_with("FailAfter") {
         Fault::FailAfter(num(f))
+    } else if f.starts_with("FailOnly") {
+        Fault::FailOnly(num(f))
     } else {
         Fault::ParkAfter(num(f))
     };
@@ -128,10 +130,10 @@ pub fn alphabet(pool: &[Op], thorough: bool) -> Vec<Step> {
                     continue;
                 }
                 for src in 0..2 {
-                    for fault in [Fault::None, Fault::FailBefore, Fault::FailAfter(1)] {
+                    for fault in [Fault::None, Fault::FailBefore, Fault::FailAfter(1), Fault::FailOnly(0)] {
                         // the bulk error contract reports successes by id: with the same id
                         // twice a partial failure is ambiguous, so that combination is left out
-                        if pool[a].key == pool[b].key && matches!(fault, Fault::FailAfter(_)) {
+                        if pool[a].key == pool[b].key && matches!(fault, Fault::FailAfter(_) | Fault::FailOnly(_)) {
                             continue;
                         }
                         let ops = vec![a, b];
@@ -146,8 +148,8 @@ pub fn alphabet(pool: &[Op], thorough: bool) -> Vec<Step> {
                 for order in [[0, 1, 2], [2, 1, 0], [1, 2, 0]] {
                     let ops: Vec<usize> = order.iter().map(|i| w[*i]).collect();
                     let distinct_ids = ops.iter().map(|i| pool[*i].key).collect::<std::collections::BTreeSet<_>>().len() == 3;
-                    for fault in [Fault::None, Fault::FailAfter(1), Fault::FailAfter(2)] {
-                        if !distinct_ids && matches!(fault, Fault::FailAfter(_)) {
+                    for fault in [Fault::None, Fault::FailAfter(1), Fault::FailAfter(2), Fault::FailOnly(0), Fault::FailOnly(1)] {
+                        if !distinct_ids && matches!(fault, Fault::FailAfter(_) | Fault::FailOnly(_)) {
                             continue;
                         }
                         let req = if del { Req::MultiDel { ops: ops.clone(), src: 1 } } else { Req::MultiSet { ops: ops.clone(), src: 1 } };
@@ -157,7 +159,7 @@ pub fn alphabet(pool: &[Op], thorough: bool) -> Vec<Step> {
             }
         }
     }
-    for fault in [Fault::None, Fault::FailBefore, Fault::FailAfter(1)] {
+    for fault in [Fault::None, Fault::FailBefore, Fault::FailAfter(1), Fault::FailOnly(0)] {
         out.push(Step { req: Req::Purge, fault });
     }
     out
@@ -295,6 +297,7 @@ where
             Fault::None => "storage-ok",
             Fault::FailBefore => "storage-fails-before",
             Fault::FailAfter(_) => "storage-fails-part-way",
+            Fault::FailOnly(_) => "storage-fails-one-document",
             Fault::ParkAfter(_) => "parked",
         }
     );
